@@ -648,6 +648,19 @@ func checkC22(p *Prog, r *Report) {
 	}
 	p.runPrefixRule(r, "E1.prefixbound", all, 2)
 	p.blacklistNotDerivedRule(r)
+	// label expansion strips the walked prefix from clean walk names: the prefix of a subrepo comes from Subrepo.Dir (which
+	// cleans), never from the raw Root string as written in subrepo(path=...)
+	{
+		raw := ""
+		for _, f := range p.Funcs("plz") {
+			eachInstr(f, false, func(_ *ssa.Function, i ssa.Instruction) {
+				if v, ok := i.(ssa.Value); ok && fieldKeyOfLoad(v) == "core.Subrepo.Root" {
+					raw = fnName(f)
+				}
+			})
+		}
+		r.check(raw == "", "E7.subrepo-prefix-is-cleaned", "package plz reads a subrepo's directory through Subrepo.Dir only", "-", "plz", "no direct read of Subrepo.Root", raw+" uses Subrepo.Root as written (path = \"third_party/vendored/\" or \"./third_party/vendored\"): the walk yields clean names, stripping the unclean prefix fails, and `///sub//...` expands to packages with the subrepo's own path in their name")
+	}
 	// prune conditions
 	rule := "E5.walk-prunes"
 	var cb *ssa.Function
